@@ -640,15 +640,158 @@ fn c16_limiter_case(leg: &mut Leg, r: &mut Rng, case_seed: u64) {
     }
 }
 
+/// The server's own (global) cookie keys, on tokio's paused clock: one sequence per process, in its own thread.
+/// Exemption is observed the way a client would see it: a flood of refused queries through the listener's decision
+/// function with a fresh limiter is either limited after the burst (not exempt) or never (exempt).
+fn c16_keys_sequence(leg: &mut Leg, seed: u64) {
+    let replay = json!({"engine": "c16-keys", "seed": seed});
+    let mut r = Rng::derive(seed, 0xc16, 7);
+    let cc = r.bytes(8);
+    let a: std::net::IpAddr = std::net::IpAddr::V4(std::net::Ipv4Addr::new(10, 9, r.u8(), 1 + r.below(200) as u8));
+    let a2: std::net::IpAddr = std::net::IpAddr::V4(std::net::Ipv4Addr::new(10, 8, r.u8(), 1 + r.below(200) as u8));
+    let srv: std::net::IpAddr = "10.0.0.53".parse().unwrap();
+    let srv2: std::net::IpAddr = "10.0.0.54".parse().unwrap();
+    let build = |cookie: Vec<u8>, cip: std::net::IpAddr, sip: std::net::IpAddr| -> Option<(erbium::dns::DnsMessage, usize)> {
+        let m = rn::Msg {
+            id: 9,
+            flags: 0x0100,
+            questions: vec![rn::Question { name: rn::name_from_str("k.example"), qtype: 1, qclass: 1 }],
+            opt: Some(rn::Opt { udp_size: 1232, options: vec![(10u16, cookie)], ..Default::default() }),
+            ..Default::default()
+        };
+        let b = rn::encode(&m, rn::Compress::None);
+        let q = ev::parse(&b).ok()?;
+        Some((erbium::dns::DnsMessage { in_size: b.len(), in_query: q, local_ip: sip, remote_addr: cip.with_port(33_000), protocol: erbium::dns::Protocol::Udp }, b.len()))
+    };
+    let refused = {
+        let m = rn::Msg { id: 9, flags: 0x8105, questions: vec![rn::Question { name: rn::name_from_str("k.example"), qtype: 1, qclass: 1 }], ..Default::default() };
+        match ev::parse(&rn::encode(&m, rn::Compress::None)) {
+            Ok(p) => p,
+            Err(_) => {
+                leg.inconclusive("c16-keys: cannot build a REFUSED reply");
+                return;
+            }
+        }
+    };
+    let res = guard::guard(|| {
+        let rt = tokio::runtime::Builder::new_current_thread().enable_all().start_paused(true).build().expect("runtime");
+        let mut viol: Vec<(String, String)> = Vec::new();
+        let mut counts: Vec<(String, u64)> = Vec::new();
+        rt.block_on(async {
+            // true = never limited in a flood of 40 (exempt); false = limited after the burst
+            let exempt = |cookie: Vec<u8>, cip: std::net::IpAddr, sip: std::net::IpAddr| {
+                let refused = &refused;
+                async move {
+                    let lim = ev::VerifLimiter::new();
+                    let (msg, _) = build(cookie, cip, sip)?;
+                    let mut limited = 0;
+                    for _ in 0..40 {
+                        if lim.should_ratelimit(&msg, refused, &[0u8; 120]).await {
+                            limited += 1;
+                        }
+                    }
+                    Some(limited == 0)
+                }
+            };
+            let issue = |cip: std::net::IpAddr, sip: std::net::IpAddr| {
+                let refused = &refused;
+                let cc = cc.clone();
+                async move {
+                    let (msg, _) = build(cc.clone(), cip, sip)?;
+                    let rep = ev::create_in_reply(&msg, refused).await;
+                    let e = rep.edns.as_ref()?;
+                    let (c, s) = e.get_cookie()?;
+                    let s = s?;
+                    let mut full = c.to_vec();
+                    full.extend_from_slice(s);
+                    Some(full)
+                }
+            };
+            // (1) first key period of a fresh process: cookies forged under keys anybody can guess
+            for (kname, key) in [("all-zero-8", vec![0u8; 8]), ("all-ones-8", vec![0xffu8; 8]), ("empty", vec![]), ("all-zero-32", vec![0u8; 32])] {
+                if let Some((msg, _)) = build(cc.clone(), a, srv) {
+                    let mut full = cc.clone();
+                    full.extend_from_slice(&ev::cookie_make(&msg, &cc, &key));
+                    if exempt(full, a, srv).await == Some(true) {
+                        viol.push((format!("keys/forged-under-guessable-key-exempts/{}", kname), format!("in the first key period of a fresh process a server cookie computed offline under the {} key exempts {} from the limiter", kname, a)));
+                    }
+                    counts.push(("keys_forged_cookies_tried".into(), 1));
+                }
+            }
+            // (2) a cookie the server issues now
+            let c0 = match issue(a, srv).await {
+                Some(c) => c,
+                None => {
+                    counts.push(("keys_no_cookie_issued".into(), 1));
+                    return;
+                }
+            };
+            let own = exempt(c0.clone(), a, srv).await;
+            counts.push(("keys_issued_cookie_exempts_owner".into(), (own == Some(true)) as u64));
+            if exempt(c0.clone(), a2, srv).await == Some(true) {
+                viol.push(("keys/issued-cookie-exempts-another-address".into(), format!("cookie issued to {} exempts {}", a, a2)));
+            }
+            if exempt(c0.clone(), a, srv2).await == Some(true) {
+                viol.push(("keys/issued-cookie-exempts-at-another-server-address".into(), format!("cookie issued by {} exempts at {}", srv, srv2)));
+            }
+            // (3) key periods last at most 36 h; the server is queried once per period
+            tokio::time::advance(Duration::from_secs(37 * 3600)).await;
+            let prev = exempt(c0.clone(), a, srv).await;
+            counts.push(("keys_cookie_valid_in_following_period".into(), (prev == Some(true)) as u64));
+            tokio::time::advance(Duration::from_secs(37 * 3600)).await;
+            let _ = exempt(cc.clone(), a2, srv).await; // some traffic
+            tokio::time::advance(Duration::from_secs(1)).await;
+            if exempt(c0.clone(), a, srv).await == Some(true) {
+                viol.push(("keys/cookie-older-than-two-key-periods-exempts/server-queried-every-period".into(), "a cookie issued 74 h ago (key periods last 24-36 h, the server saw queries in each) still exempts its owner".into()));
+            }
+            // (4) the same, but the server hears nothing at all in between
+            if let Some(c1) = issue(a, srv).await {
+                let _ = exempt(c1.clone(), a, srv).await;
+                tokio::time::advance(Duration::from_secs(80 * 3600)).await;
+                if exempt(c1.clone(), a, srv).await == Some(true) {
+                    viol.push(("keys/cookie-older-than-two-key-periods-exempts/server-idle-in-between".into(), "a cookie issued 80 h ago (key periods last 24-36 h; no query reached the server in between) still exempts its owner".into()));
+                }
+                counts.push(("keys_idle_gap_sequences".into(), 1));
+            }
+        });
+        (viol, counts)
+    });
+    leg.eval();
+    leg.class("keys-sequence");
+    match res {
+        Err(p) => leg.violation(format!("C16/keys-panic/{}", p.class()), format!("{} at {}", p.message, p.location), replay),
+        Ok((viol, counts)) => {
+            for (k, n) in counts {
+                leg.count(&k, n);
+            }
+            for (sig, d) in viol {
+                leg.violation(format!("C16/{}", sig), d, replay.clone());
+            }
+        }
+    }
+}
+
 pub fn run_c16(seed: u64, thorough: bool, shards: u64) -> Leg {
     let mut total = Leg::new(
         "c16-bucket-cookie-inproc",
         "C16",
-        "GenericTokenBucket under a virtual clock (start times incl. near 2^31 and 2^32; arrival styles: flood, steady, bursts with idle gaps, sparse; costs 1..3B): every window of grants checked against B + R*dt with B,R read from the code's constants, quiet sources (idle >= B/R) must be granted costs <= B; cookie issue/validate with explicit keys: same addresses under current/previous/older key, other client address, other server address, other client cookie, flipped, truncated, absent; the listener's IpRateLimiter (two hashed buckets per source) and its should_ratelimit decision on a per-thread offset of the limiter's own clock, 1-3 sources, floods/bursts/idle gaps: per source every window of grants <= 2*(B + R*dt) tokens at the documented cost max(2*reply-query, 200), and after the whole limiter was idle for the refill period the next refused query must be answered however many attempts were dropped before; distinct = (arrival style, start class, grants) or (cookie, family) or (limiter, entry, style, sources, cost class, drops)",
+        "GenericTokenBucket under a virtual clock (start times incl. near 2^31 and 2^32; arrival styles: flood, steady, bursts with idle gaps, sparse; costs 1..3B): every window of grants checked against B + R*dt with B,R read from the code's constants, quiet sources (idle >= B/R) must be granted costs <= B; cookie issue/validate with explicit keys: same addresses under current/previous/older key, other client address, other server address, other client cookie, flipped, truncated, absent; the listener's IpRateLimiter (two hashed buckets per source) and its should_ratelimit decision on a per-thread offset of the limiter's own clock, 1-3 sources, floods/bursts/idle gaps: per source every window of grants <= 2*(B + R*dt) tokens at the documented cost max(2*reply-query, 200), and after the whole limiter was idle for the refill period the next refused query must be answered however many attempts were dropped before; the process-wide cookie keys on tokio's paused clock (once per run): cookies forged under guessable keys in the first key period, an issued cookie from another client/server address, and an issued cookie after more than two key periods (server queried in every period / not at all) must not exempt; distinct = (arrival style, start class, grants) or (cookie, family) or (limiter, entry, style, sources, cost class, drops)",
     );
     total.floor = 500;
     let n: u64 = if thorough { 600_000 } else { 12_000 };
     let mut handles = Vec::new();
+    {
+        // the process-wide cookie keys: first, alone, while they are still in their initial state
+        let mut leg = total.child();
+        let h = std::thread::spawn(move || {
+            c16_keys_sequence(&mut leg, seed);
+            leg
+        });
+        match h.join() {
+            Ok(l) => total.merge(l),
+            Err(_) => total.inconclusive("keys thread died"),
+        }
+    }
     for shard in 0..shards {
         let mut leg = total.child();
         handles.push(std::thread::spawn(move || {
